@@ -44,7 +44,7 @@ PROPS = {
                 "0.4-1.2 KiB (quick) / up to 2 KiB (thorough) per vector, sentences with hostile values) x modes {parse, completion revisions "
                 "0/1/7/8/9 with/without application name} plus markdown/html/manpage rendering; "
                 "every execution runs under catch_unwind with a fuel budget and is repeated three "
-                "times (again, after unrelated runs, fresh parser) and compared. " + DISTINCT,
+                "times (again, after unrelated runs, fresh parser) and compared.  A branch of a choice may be an adjacent group. " + DISTINCT,
         "assumptions": COMMON_ASSUMPTIONS + [
             "Termination is decided on a logical step counter (fuel = 10000 x (items+1) x "
             "(spec nodes+1)), never on wall-clock time.",
@@ -98,7 +98,7 @@ PROPS = {
                 "and invalid ones with an occurrence dropped, doubled or a foreign flag added); "
                 "each is linearised in canonical order and in random permutations of its named "
                 "occurrences that keep same-field order, positional order and the side of "
-                "command names and `--`; spelling is identical in both lines.  Sibling commands share a letter (switch here, argument there) in a quarter of the definitions; two neighbouring flags that feed different fields are also written as one cluster in both orders (`-ab`, `-ba`). " + DISTINCT,
+                "command names and `--`; spelling is identical in both lines.  Sibling commands share a letter (switch here, argument there) in a quarter of the definitions; two neighbouring flags that feed different fields are also written as one cluster in both orders (`-ab`, `-ba`).  Every first permutation is also run with one argument written `--name=` (empty value attached) in both orders; every 16th case is one of two shapes in which a named occurrence and a word compete for a slot (F34, F35). " + DISTINCT,
         "assumptions": COMMON_ASSUMPTIONS + [
             "For two failing lines only the outcome class is compared (the message may name a "
             "different item); differing texts are counted, not judged.",
@@ -120,7 +120,7 @@ PROPS = {
                 "of a single-use occurrence / `=junk` on a flag inserted at the item boundaries "
                 "left of `--`, must fail on stderr. Hooks: the outermost accept event must show "
                 "every item consumed; cached remaining count must equal the ledger at every "
-                "remove/set_scope. " + DISTINCT,
+                "remove/set_scope.  Another name of a command inserted right behind its name must be treated like an unrelated word in that place. " + DISTINCT,
         "assumptions": COMMON_ASSUMPTIONS + [
             "Surplus words are only inserted where the active level declares no positional or "
             "command at all (elsewhere a word may legitimately be claimed).",
@@ -196,7 +196,7 @@ PROPS = {
                 "derivation and recogniser; a deeper level's option moved left of its command "
                 "name must fail; unknown / foreign / extra command names are judged by the "
                 "recogniser; `path.. --help` must print the help carrying the unique header "
-                "marker of exactly that level.  A fifth of the command choices sit under fallback/fallback_with. " + DISTINCT,
+                "marker of exactly that level.  A fifth of the command choices sit under fallback/fallback_with.  Half of the trees have a version at the top level only: `--version`/`-V` behind a command name is an unknown flag there. " + DISTINCT,
         "assumptions": COMMON_ASSUMPTIONS + [
             "An enclosing level's option right of a command name is outside the quantifier and "
             "counted as inconclusive.",
@@ -216,7 +216,7 @@ PROPS = {
                 "split; words right of it are replaced by dash-looking data (`--`, `--help`, "
                 "declared names, command names) and must arrive verbatim; `--name --` must fail; "
                 "moving the separator so that a strict word is on its left or a non-strict one on "
-                "its right must fail.  Positionals under optional/repeating wrappers are hidden in a quarter of the cases; one definition in eight is `[LEFT-ONLY] .. -- RIGHT-ONLY...`; an absent or repeated left-side-only word does not close the strict words that follow. " + DISTINCT,
+                "its right must fail.  Positionals under optional/repeating wrappers are hidden in a quarter of the cases; one definition in eight is `[LEFT-ONLY] .. -- RIGHT-ONLY...`; an absent or repeated left-side-only word does not close the strict words that follow.  The builder clones every other positional after restricting it. " + DISTINCT,
         "assumptions": COMMON_ASSUMPTIONS,
         "must_observe": ["definitions-with-a-hidden-non-strict-positional", "class:sentence-hostile-words-after-separator",
                          "class:argument-name-then-separator",
@@ -237,7 +237,7 @@ PROPS = {
                 "its own item at every boundary left of `--` (including between an argument name "
                 "and its value and inside adjacent blocks); outcome must be stdout carrying the "
                 "header (or version) of the innermost entered level (for invalid base lines: of a "
-                "level on the entered path).  Command choices may sit under fallback/fallback_with. " + DISTINCT,
+                "level on the entered path).  Command choices may sit under fallback/fallback_with.  One case in 24 is a user argument named `-h`/`-V` next to a subcommand, written `-hVALUE`, with a help request on the line. " + DISTINCT,
         "assumptions": COMMON_ASSUMPTIONS + [
             "No definition declares the same short letter as flag and argument, so the "
             "ambiguous-cluster exemption never applies.",
@@ -290,7 +290,7 @@ PROPS = {
                 "file name) and the vector (sentences, hostile values, byte noise incl. invalid "
                 "UTF-8, help/version/completion requests) passed through the OS; the child calls "
                 "OptionParser::run(). Parent prediction from run_inner(Args::from(argv)"
-                ".set_name(file name)): status, stdout bytes, stderr bytes, sentinel iff value.  A quarter of the cases also ask a child for `--bpaf-complete-style-<shell>` somewhere on the line: the script on stdout, status 0, empty stderr, body not reached. "
+                ".set_name(file name)): status, stdout bytes, stderr bytes, sentinel iff value.  A quarter of the cases also ask a child for `--bpaf-complete-style-<shell>` somewhere on the line: the script on stdout, status 0, empty stderr, body not reached.  Items with a multi-byte character in front of a space are in the junk pool; when the in-process prediction panics the child is still run and must exit with status 0 or 1. "
                 + DISTINCT,
         "assumptions": COMMON_ASSUMPTIONS + [
             "NUL bytes cannot be passed through the OS and are stripped from vectors.",
@@ -407,7 +407,7 @@ PROPS = {
                 "classifier and escape scanner (only bpaf's requests/escapes), one section per "
                 "visible level mentioning every visible item, no hidden item mentioned. "
                 "evaluations = documents rendered; distinct_nontrivial = distinct (definition, "
-                "format) pairs. Half of the definitions with two command subtrees give a nested command of the second the name and description of one in the first (`app remote add` / `app stash add`).",
+                "format) pairs. Half of the definitions with two command subtrees give a nested command of the second the name and description of one in the first (`app remote add` / `app stash add`). Flags and arguments may be backed by environment variables.",
         "assumptions": COMMON_ASSUMPTIONS + [
             "groff/man/zsh are not installed: the manpage is judged lexically against the set of "
             "requests and escapes bpaf's renderer emits.",
@@ -431,7 +431,7 @@ PROPS = {
                 "names, `name=` forms, value positions). Oracles: always completion output; every "
                 "candidate explained by the definition; hidden names and names of commands not "
                 "entered never offered; for fresh prefixes at item starts every visible, not yet "
-                "given, top-level name of the active level that extends the prefix is offered. "
+                "given, top-level name of the active level that extends the prefix is offered.  Every 32nd case: alternatives whose names extend one another, the shorter one typed exactly (F42). "
                 + DISTINCT,
         "assumptions": COMMON_ASSUMPTIONS + [
             "strict() positionals are not generated (next to them bpaf offers a `--` hint the "
@@ -492,7 +492,7 @@ PROPS = {
                 "clusters), help/description strings with code fences, indented code and several "
                 "paragraphs, group_help, hidden items, completers, and vectors ending in ``, `-`, "
                 "`--`. evaluations = executions over all builds; distinct_nontrivial = distinct "
-                "lines of the reference stream. One corpus definition in six has a command reachable from two branches that differ only in the footer.",
+                "lines of the reference stream. One corpus definition in six has a command reachable from two branches that differ only in the footer. For failures the corpus also records the bytes `print_message` writes to file descriptor 2.",
         "assumptions": [
             "Built from /repo's working tree in release mode with overflow-checks; hooks are not "
             "compiled into these variants (cfg(bpaf_verif) off), so the comparison is between "
